@@ -240,15 +240,51 @@ class GenBothBuilds:
         t0 = time.time()
         r.rule = ('the probe theories are compiled twice by the compiler built from the current tree -- as single modules, and as modules plus one component library per rule (linked with '
                   '-l static:+verbatim=<rule>.rlib like the build script does) -- and the whole gen sweep (same seed) is run against both builds: the digest of everything observed through '
-                  'the API must be identical and neither build may fail a contract the other one passes')
+                  'the API must be identical and neither build may fail a contract the other one passes; before that, the exported rule symbols of all probe modules must be pairwise '
+                  'distinct across theories (two probes, pz and pz_q, have names related at an underscore boundary)')
         seed = os.environ.get('VERIF_SEED', '0') or '0'
         args = ['sweep', 'all', 'thorough' if tier == 'thorough' else 'quick', seed]
         r.checker_cmd = 'native_gen(module build) %s ; native_gen(component build) %s' % (' '.join(args), ' '.join(args))
+        # exported rule symbols must identify (theory, rule): the same symbol emitted for two different theories makes one theory run the
+        # other's rule in a component build (and is a duplicate definition in a single-crate build)
         try:
-            em, ec = self._build(False), self._build(True)
+            import re as _re
+            from kit import gen as G
+            from units import gen as U
+            out = G.generate(U.probe_files())
+            owner = {}
+            for k in sorted(out):
+                for sym in set(_re.findall(r'pub fn (eql_\w+)\(', open(out[k]).read())):
+                    r.evaluations += 1
+                    if sym in owner and owner[sym] != k:
+                        r.failures.append({'obligation': 'the exported rule symbol %s is emitted for two theories (%s and %s)' % (sym, owner[sym], k), 'function': 'eqlog::process (symbol names)',
+                                           'message': 'symbol %s is exported by the modules of %s and of %s: linked into one program, one theory runs the other theory\'s rule -- symbol-clash' % (sym, owner[sym], k),
+                                           'input': 'symbols of %s and %s' % (owner[sym], k), 'native': self.name, 'class': 'symbol-clash'})
+                    owner.setdefault(sym, k)
+        except Exception as e:      # noqa
+            r.notes.append('symbol scan skipped: ' + str(e)[-300:])
+        if r.failures:
+            r.status = 'violation'
+            r.wall_s = time.time() - t0
+            self._r[tier] = r
+            return r
+        try:
+            em = self._build(False)
         except Exception as e:      # noqa
             r.status, r.reason = 'undecided', 'native-build-failed'
             r.notes.append(str(e)[-2500:])
+            r.wall_s = time.time() - t0
+            self._r[tier] = r
+            return r
+        try:
+            ec = self._build(True)
+        except Exception as e:      # noqa
+            # the same programs and the same harness build and link as single modules but not as module + component libraries:
+            # the two builds do not "export exactly the symbols the module imports"
+            r.status = 'violation'
+            r.failures.append({'obligation': 'the probe theories build and link as single modules but NOT as modules plus component libraries: ' + str(e)[-300:].replace('\n', ' '),
+                               'function': 'eqlog::process (component build)', 'message': 'component build of the probes fails where the module build succeeds: %s -- component-build-fails' % str(e)[-1500:],
+                               'input': 'component build of the probe theories', 'native': self.name, 'class': 'component-build-fails'})
             r.wall_s = time.time() - t0
             self._r[tier] = r
             return r
